@@ -547,8 +547,8 @@ pub fn plan(ctx: &Ctx) -> Plan {
             (Box::new(SanStrings), t.pick(1_000_000, 30_000_000)),
             (Box::new(PlainBuild), t.pick(300_000, 5_000_000)),
             (Box::new(UciLines), t.pick(300, 10_000)),
-            (Box::new(crate::fuzzdrv::target("parsers_raw")), t.pick(0, 400_000)),
-            (Box::new(crate::fuzzdrv::target("parsers_grammar")), t.pick(0, 400_000)),
+            (Box::new(crate::fuzzdrv::target("parsers_raw")), t.pick(0, 60_000)),
+            (Box::new(crate::fuzzdrv::target("parsers_grammar")), t.pick(0, 60_000)),
         ],
         rule: "FEN: canonical strings written by the independent oracle from constructed positions, then 0-4 mutations \
                (delete/duplicate/insert odd and multi-byte characters, swap/drop/duplicate fields, digit floods of 8-64 \
